@@ -26,6 +26,7 @@
 #define MAXOPS 24
 #define MAXCOND 8
 #define MAXV 4
+enum { O_GATE = 100 };
 enum { O_LOCK, O_TRYLOCK, O_UNLOCK, O_UNLOCKWW, O_SET, O_SKIPUNLESS, O_MUWAIT, O_CVWAIT, O_CVLOOP, O_WAITN, O_WAITNLOOP,
        O_SIGNAL, O_BROADCAST, O_DEBUG, O_NOTIFY, O_DECREF, O_FREEIFLAST, O_NOP };
 static const char *opnames[] = { "lock", "trylock", "unlock", "unlockww", "set", "skipunless", "muwait", "cvwait", "cvloop", "waitn", "waitnloop",
@@ -47,6 +48,8 @@ static struct {
 	int sleeps[RT_MAXT], inlock[RT_MAXT];
 	int mu_freed; uint32_t word_at_free;
 	int done_ops[RT_MAXT];
+	int ip[RT_MAXT];
+	int picked[RT_MAXT];
 } S;
 static int maxsleeps;
 static waiter *wtab[16]; static int nwtab;
@@ -76,6 +79,9 @@ static nsync_time deadline (int dl) {
 	t.tv_sec = (time_t) ((RT_T0 + dl) * (long) RT_TICK_SEC); t.tv_nsec = 0;
 	return t;
 }
+/* a lock that cv.c cannot recognise as an nsync_mu (generic-lock waiters) */
+static void g_lock (void *m) { nsync_mu_lock ((nsync_mu *) m); }
+static void g_unlock (void *m) { nsync_mu_unlock ((nsync_mu *) m); }
 static void v_lock (void *m) { nsync_mu_lock ((nsync_mu *) m); }
 static void v_unlock (void *m) { nsync_mu_unlock ((nsync_mu *) m); }
 
@@ -97,6 +103,7 @@ static void client (void *arg) {
 	int ip = 0;
 	for (;;) {
 		struct op *o;
+		S.ip[t] = ip;
 		rt_point ("c0");
 		S.nwrec[t] = NULL;
 		if (ip >= S.nops[t]) { if (S.looper[t]) { ip = 0; continue; } break; }
@@ -110,6 +117,7 @@ static void client (void *arg) {
 		case O_SET: ip++; __tsan_write4 (&S.cells[o->v - 1]); S.cells[o->v - 1] = o->x;
 			if (rt_held_by (S.mu, t) != 1) rt_violation ("O-harness", "client wrote a cell without the write lock (scenario error)");
 			break;
+		case O_GATE: ip++; break;
 		case O_SKIPUNLESS: ip += (S.ret[t] != 1) ? 1 + o->skip : 1; break;
 		case O_MUWAIT: {
 			struct cond *c = o->c ? &S.conds[o->c - 1] : NULL;
@@ -127,8 +135,11 @@ static void client (void *arg) {
 				__tsan_read4 (&S.cells[o->v - 1]);
 				if (!(S.cells[o->v - 1] == 0 && S.ret[t] != ETIMEDOUT && S.ret[t] != ECANCELED)) { ip++; S.ret[t] = -1; break; }
 			} else ip++;
-			r = nsync_cv_wait_with_deadline (S.cv, S.mu, deadline (o->dl), o->cn ? S.note : NULL);
+			S.picked[t] = 0;
+			if (o->x == 9) r = nsync_cv_wait_with_deadline_generic (S.cv, S.mu, g_lock, g_unlock, deadline (o->dl), o->cn ? S.note : NULL);
+			else r = nsync_cv_wait_with_deadline (S.cv, S.mu, deadline (o->dl), o->cn ? S.note : NULL);
 			S.ret[t] = r;
+			if (S.picked[t] && r != 0) rt_violation ("O-ret", "a cv wait that a signal/broadcast had unlinked (consumed wake-up) returned %d instead of 0", r);
 			{ struct op oo = *o; oo.lt = mode; check_ret (t, &oo, r, "nsync_cv_wait_with_deadline"); }
 			break; }
 		case O_WAITN: case O_WAITNLOOP: {
@@ -161,6 +172,7 @@ static void client (void *arg) {
 /* ---- scenario ---- */
 static int find_op (const char *s, size_t n) {
 	unsigned i;
+	if (n == 4 && !strncmp (s, "gate", 4)) return O_GATE;
 	for (i = 0; i < sizeof opnames / sizeof opnames[0]; i++) if (strlen (opnames[i]) == n && strncmp (opnames[i], s, n) == 0) return (int) i;
 	fprintf (stderr, "h_mu: unknown op %.*s\n", (int) n, s); exit (2);
 }
@@ -219,6 +231,18 @@ static void setup (const char *init) {
 	S.refs = S.n;
 	nwtab = 0;
 	for (i = 0; i < S.n; i++) { S.ret[i] = -1; rt_spawn (client, (void *) (long) i); }
+}
+
+/* scenario gates: a thread whose next operation is gate(k) starts only once k threads are queued (mutex + cv queues) */
+static int qlen (nsync_dll_list_ l) { int k = 0; nsync_dll_element_ *p; for (p = nsync_dll_first_ (l); p != NULL && k < 32; p = nsync_dll_next_ (l, p)) k++; return k; }
+static int client_gate (int t) {
+	struct op *o;
+	if (S.ip[t] >= S.nops[t]) return 1;
+	o = &S.prog[t][S.ip[t]];
+	if (o->op != O_GATE) return 1;
+	if (S.mu_freed) return 1;
+	if ((*(volatile uint32_t *) &S.mu->word & MU_SPINLOCK) || (*(volatile uint32_t *) &S.cv->word & CV_SPINLOCK)) return 0;
+	return qlen (S.mu->waiters) + qlen (S.cv->waiters) >= o->x;
 }
 
 /* ---- projection ---- */
@@ -303,6 +327,15 @@ static void note_step (int t) {
 	if ((o->kind == OP_ST || o->kind == OP_LD) && o->addr && rt_stack_owner (o->addr) >= 0) {
 		rt_fn_name (o->site, fb, sizeof fb);
 		if (!strcmp (fb, "nsync_wait_n") || !strcmp (fb, "cv_enqueue") || !strcmp (fb, "cv_ready_time")) S.nwrec[rt_stack_owner (o->addr)] = o->addr;
+	}
+	if (o->kind == OP_CAS && o->ok && o->addr) {
+		/* a signal/broadcast that bumps a waiter's remove_count has unlinked that waiter: it owes that wait a 0 result */
+		rt_fn_name (o->site, fb, sizeof fb);
+		if (!strcmp (fb, "nsync_cv_signal") || !strcmp (fb, "nsync_cv_broadcast")) {
+			int i, j;
+			for (i = 0; i < nwtab; i++) if ((char *) o->addr >= (char *) wtab[i] && (char *) o->addr < (char *) wtab[i] + sizeof (waiter))
+				for (j = 0; j < S.n; j++) if (rt_tls_waiter (j) == (void *) wtab[i]) S.picked[j] = 1;
+		}
 	}
 	if (o->kind == OP_SEMP && S.inlock[t]) {
 		S.sleeps[t]++;
@@ -486,6 +519,7 @@ int main (int argc, char **argv) {
 	if (argc < 3) { fprintf (stderr, "usage: h_mu replay <schedule> [violdir] | h_mu random <runs> <seed> <init> [violdir] [trace]\n"); return 2; }
 	rt_init ();
 	rt_sem_single_step = 1;
+	rt_client_gate = client_gate;
 	rt_track_stack_frames (1);
 	if (getenv ("VERIF_HB")) rt_hb_enable (1);
 	rt_snapshot ();
